@@ -604,6 +604,15 @@ func (t *T) Context() context.Context {
 		return t.ctx
 	}
 
+	if t.cleaning.Load() {
+		// Cleanup started (and canceled and cleared the context)
+		// while we were waiting for the lock:
+		// a context created now would never be canceled.
+		ctx, cancel := context.WithCancel(context.Background())
+		cancel()
+		return ctx
+	}
+
 	// Use the testing.TB's context as the starting point if available,
 	// and the Background context if not.
 	//
